@@ -5,7 +5,9 @@
 package kfl
 
 import (
+	"fmt"
 	"regexp"
+	"strings"
 	"time"
 
 	"github.com/alecthomas/participle/v2"
@@ -76,6 +78,9 @@ type Parameter struct {
 
 var parser = participle.MustBuild(&Expression{}, participle.UseLookahead(2))
 
+// MaxQueryTokens is the number of tokens of the longest query Parse accepts.
+const MaxQueryTokens = 4096
+
 // Parse parses the query (filtering syntax) into tree stucture
 // defined as Expression. Tags defines the grammar rules and tokens.
 // Expression is the Abstract Syntax Tree (AST) of this query language.
@@ -83,6 +88,17 @@ func Parse(text string) (expr *Expression, err error) {
 	expr = &Expression{}
 	if text == "" {
 		return
+	}
+	// The parser is recursive: every parenthesis, unary operator and logical clause of the
+	// query is a level of recursion, several kilobytes of stack each. A query of enough
+	// tokens overflows the goroutine stack, which is fatal to the whole process and cannot
+	// be recovered from - so such a query is an error instead. (Tokens, not bytes: a long
+	// string literal is one token and costs no depth.)
+	if len(text) > MaxQueryTokens {
+		if tokens, lexErr := parser.Lex("", strings.NewReader(text)); lexErr == nil && len(tokens) > MaxQueryTokens {
+			err = fmt.Errorf("the query is too long: %d tokens (the limit is %d)", len(tokens), MaxQueryTokens)
+			return
+		}
 	}
 	err = parser.ParseString("", text, expr)
 	return
